@@ -61,9 +61,13 @@ var vshapes = [][]int{{0}, {1}, {3}, {4}, {2, 2}, {4, 2}, {2, 4}, {4, 4}, {1, 1,
 // afterwards Contains(p) equals the interval-union model, the invariant holds, and the result
 // code equals the change in the number of stored ranges (or Full, with nothing lost).
 //
-//symgo:harness prop=C39 tier=quick shards=16 timeout=400 ttimeout=1700 shrink=util/ranges/ranges.go:nodeSize=4 bounds=pre-state_shapes_of_0..16_ranges_in_1..4_leaves;1-byte_endpoints;one_insert;nodeSize_shrunk_to_4
+//symgo:harness prop=C39 tier=quick shards=16 timeout=400 ttimeout=1700 shrink=util/ranges/ranges.go:nodeSize=4 bounds=pre-state_shapes_{0},{3},{4},{2,2},{4,2},{4,4,4,4}_(thorough:_10_shapes)_of_ranges_per_leaf;1-byte_endpoints;one_insert;nodeSize_shrunk_to_4
 func VerifC39RangesStep() {
-	shape := vshapes[rt.Pick("shape", len(vshapes))]
+	shapes := vshapes
+	if !rt.Thorough() {
+		shapes = [][]int{{0}, {3}, {4}, {2, 2}, {4, 2}, {4, 4, 4, 4}}
+	}
+	shape := shapes[rt.Pick("shape", len(shapes))]
 	var rs Ranges
 	var from, to []string
 	prev := ""
